@@ -70,7 +70,7 @@ CHECKS = {
               'Asserted: reserved host + http(s) or scheme-less without port -> /<name> = user lower-cased, /joinchat/<token> = invite, other '
               'shapes/hosts/schemes = error; accepted either way (totality only): upper-case hosts, percent-escapes, //host, scheme-less with port. '
               'Non-trivial: the string parses as a URL with non-empty host or path; distinct by hash of the link.'),
-        must_hit=['asserted:user', 'asserted:join', 'asserted:err', 'totality-only', 'soup', 'path=bare', 'scheme=""', 'host=lookalike', 'concurrent:resolutions'],
+        must_hit=['asserted:user', 'asserted:join', 'asserted:err', 'totality-only', 'soup', 'path=bare', 'scheme=""', 'host=lookalike', 'concurrent:resolutions', 'exported-host-list-edited-by-caller'],
         assumptions=['net/url parsing of the standard library defines what host/path a link has', 'strings.ToLower defines lower-casing'],
     ),
     'C17': dict(
@@ -102,7 +102,7 @@ CHECKS = {
               'client secret a, forced corner in {none,A,B,u,S} x {1,2} zero bytes, B minimal-length or 256-byte, public or deterministic entry point, '
               'or an out-of-range B in {0,empty,p,p+1,short,long}, or the empty password). Every case is non-trivial (each costs two 100000-round PBKDF2); '
               'distinct by hash of all fields.'),
-        must_hit={'quick': ['concurrent:evaluations', 'corner:*', 'badB:*', 'g=3', 'g=4', 'g=7'],
+        must_hit={'quick': ['concurrent:evaluations', 'long-hash-input', 'corner:*', 'badB:*', 'g=3', 'g=4', 'g=7'],
                   'thorough': ['concurrent:evaluations', 'corner:A1', 'corner:B1', 'corner:u1', 'corner:S1', 'corner:A2', 'corner:B2', 'corner:1', 'public-api', 'empty-password',
                                'badB:zero', 'badB:p', 'badB:p+1', 'badB:short', 'badB:long', 'B-minimal-length']},
         assumptions=['group = Telegram\'s 2048-bit prime with g in {3,4,7} (the generators valid for it)', 'crypto/sha256, crypto/sha512, crypto/hmac, math/big of the standard library',
@@ -119,7 +119,7 @@ CHECKS = {
               'filesystems), loadA, loadFresh, remove, tear (every prefix of the file)} on {absolute, relative, bare-file-name} paths; sessions with keys/hashes of '
               '0..300 arbitrary bytes, salts over all int64 classes, host names of arbitrary valid UTF-8 incl. JSON metacharacters. Non-trivial: a load after a '
               'second store, a torn file, a non-ASCII or metacharacter host, or a negative salt; distinct by hash of the history.'),
-        must_hit=['concurrent-stores', 'op:tear', 'torn-file', 'load-after-second-store', 'load-after-same-tick-store', 'load-missing', 'path:bare', 'path:relative', 'path:absolute',
+        must_hit=['concurrent-stores', 'load-store-race', 'op:tear', 'torn-file', 'load-after-second-store', 'load-after-same-tick-store', 'load-missing', 'path:bare', 'path:relative', 'path:absolute',
                   'host-non-ascii', 'host-json-metachar', 'salt-negative', 'op:remove', 'op:storeFresh', 'op:loadFresh', 'store-of-an-earlier-value', 'resume', 'resume-verdict:ok'],
         assumptions=['host names are valid UTF-8 (JSON cannot carry other byte strings)', 'the directory of the path exists',
                      'a crash during writing leaves a prefix of the new content (os.WriteFile truncates, then writes)',
@@ -138,7 +138,7 @@ CHECKS = {
         rule=('format case = (mode, 1..8 message lengths from {0,4,..,around 127 words,..,2^16 (2^20 thorough)}); tcp case = (mode, 0..5 plain packets, optional 4-byte '
               'error frame with signed code, close at boundary/mid-message/none, composition of TCP write sizes, 0..3 messages written back); detect case = first '
               'bytes. Non-trivial: >=2 messages, a message of >=127 words, a cut inside a header, >=2 messages in one segment, or >8 segments; distinct by hash of the case.'),
-        must_hit=['kind:format', 'kind:tcp', 'kind:detect', 'abridged', 'intermediate', 'msg>=127words', 'msg>=2^16words', 'msg-at-127-word-switch', 'cut-inside-header',
+        must_hit=['kind:format', 'kind:tcp', 'kind:detect', 'abridged', 'intermediate', 'msg>=127words', 'msg>=2^16words', 'client-closes-right-after-writing', 'msg-at-127-word-switch', 'cut-inside-header',
                   'error-frame-negative', 'close:boundary', 'close:mid', 'client-writes', 'many-segments', 'msg-empty'],
         assumptions=['the kernel may coalesce separately written segments: that only weakens a case, it never falsifies one',
                      'message lengths are multiples of 4 (every MTProto packet is)', 'in-memory pipe honours the exact-count read contract that tcpConn.Read provides'],
@@ -155,7 +155,7 @@ CHECKS = {
         rule=('value = registered Go type x recorded builder choices (depth <= 3 quick / 6 thorough). Non-trivial: contains a multi-field group in present-mixed state, '
               'a boundary-length string (252..257, 65535..65536, 2^24-1), nesting depth >= 2, a vector of >= 2 elements, a 128/256-bit integer with a leading zero '
               'byte, or a non-finite/negative-zero double; distinct by hash of (type, choices).'),
-        must_hit=['concurrent:evaluations', 'first-use-concurrent', 'feat:group-present-mixed', 'feat:str-len-252..257', 'feat:vector>=2', 'feat:depth>=2', 'feat:int128/256-leading-zero', 'feat:double-nonfinite-or-negzero',
+        must_hit=['concurrent:evaluations', 'first-use-concurrent', 'feat:vector>=999', 'feat:group-present-mixed', 'feat:str-len-252..257', 'feat:vector>=2', 'feat:depth>=2', 'feat:int128/256-leading-zero', 'feat:double-nonfinite-or-negzero',
                   'feat:enum-member', 'feat:message-container', 'top-level-enum', 'feat:str-len%4=0', 'feat:str-len%4=1', 'feat:str-len%4=2', 'feat:str-len%4=3'],
         fold={'ctor:': ('constructors_covered', 1220), 'group:': ('flag_group_states_covered', 60)},
         assumptions=['values are canonical TL values: mandatory object fields non-nil, object/enum members of a present group non-nil, true-typed members equal the presence of their group',
@@ -193,7 +193,7 @@ CHECKS = {
         technique='schema-directed differential testing against an independent TL codec (rapid + exhaustive flag-pattern enumeration)',
         rule=('case = (definition, builder choices, forced flag pattern / string length). Non-trivial: the definition has >= 1 parameter and the value exercises a set flag bit, '
               'a string of >= 254 bytes, a vector of >= 2 elements or a nested object; distinct by hash of (definition, choices).'),
-        must_hit=['concurrent:evaluations', 'feat:flag-bit-set', 'feat:string>=254', 'feat:vector>=2', 'feat:nested-object', 'feat:len-252..257', 'feat:len-0..5', 'feat:len-16777215', 'feat:len-16777216',
+        must_hit=['concurrent:evaluations', 'feat:packed-data>=2^24', 'feat:flag-bit-set', 'feat:string>=254', 'feat:vector>=2', 'feat:nested-object', 'feat:len-252..257', 'feat:len-0..5', 'feat:len-16777215', 'feat:len-16777216',
                   'direction:encode', 'direction:decode', 'def:special:container', 'def:special:gzip', 'def:special:vector'],
         fold={'def:': ('definitions_covered', 1225)},
         assumptions=['present groups have at least one non-zero member (a present group of only zero scalars cannot be expressed as a Go value: the library defines presence by non-zero members)',
@@ -226,7 +226,7 @@ CHECKS = {
         quick=dict(shards=4, checks=40, budget_s=900),
         thorough=dict(shards=16, checks=300, budget_s=3300),
         level_text=('Grammar-generated schemas of the documented TL subset carry their own model: (1) tlparser.ParseSchema must extract exactly the declared names, ids, '
-                    'parameters and result types; (2) generating four times gives byte-identical files, whether the output directory is empty or already holds longer or shorter files of the same names; (3) every generated package of a batch is compiled in a scratch '
+                    'parameters and result types; (2) generating four times from the text and three times from one parsed schema object gives byte-identical files, whether the output directory is empty or already holds longer or shorter files of the same names; (3) every generated package of a batch is compiled in a scratch '
                     'module; (4) a program linking the compiled packages compares the registry each declares with an independent reading of the schema text (same '
                     'comparison as C13: ids, field order/kinds, flag tags, FlagIndex, enum members, interface implementers); (5) the shipped schemes/api_latest.tl goes '
                     'through the same pipeline with its real ids; every other file under schemes/ is parsed for totality.'),
@@ -274,7 +274,7 @@ CHECKS = {
         rule=('case = (baseline exchange, fault = step x field x corruption x bit position). Every executed fault is non-trivial; distinct by hash of the scenario. '
               'Oracle: CreateConnection returns a non-nil error (a panic is not an error return), no session file afterwards, no encrypted frame reaches the server, child alive.'),
         must_hit=['step:resPQ', 'step:dhParams', 'step:dhInner', 'step:dhGen', 'fault:resPQ.fingerprints:other-clients-key', 'fault:resPQ.fingerprints:empty', 'fault:dhInner.sha1:prefix-flip', 'fault:dhInner.sha1:content-flip',
-                  'fault:dhGen.new_nonce_hash:flip', 'fault:dhGen.kind:gen_retry', 'fault:dhGen.kind:gen_fail', 'fault:dhParams.kind:params_fail', 'aftermath sent: new-session', 'aftermath sent: bad-salt', 'aftermath sent: update', 'verdict:ok'],
+                  'fault:dhGen.new_nonce_hash:flip', 'fault:dhGen.kind:gen_retry', 'fault:dhGen.kind:gen_fail', 'fault:dhParams.kind:params_fail', 'aftermath sent: new-session', 'aftermath sent: bad-salt', 'aftermath sent: update', 'aftermath sent: close', 'aftermath sent: app-reconnect', 'verdict:ok'],
         fold={'fault:': ('fault_classes_covered', 60)},
         assumptions=['not generated because the statement does not list them: a different server_nonce in resPQ (the server chooses it), corrupted pq, g, dh_prime, g_a, server_time'],
     ),
@@ -292,7 +292,7 @@ CHECKS = {
         technique='metamorphic reseeding and clock-window seed recovery over generated seeds (rapid); falsification of unpredictability, not proof of provenance',
         rule=('case = (kind in {reseed-nonces, reseed-exchange, reseed-srp, clock-nonce, clock-exponent, reseed-exponent-params}, seed value, g, password, dh_prime, g_a). Every case is non-trivial; distinct by hash of the case. '
               'coverage.classes["seed-candidates-tried"] counts the candidate seeds replayed.'),
-        must_hit=['kind:reseed-nonces', 'kind:clock-nonce', 'kind:clock-exponent', 'kind:reseed-srp', 'kind:reseed-exponent-params', 'small-group', 'kind:srp-distinct', 'secure_random_len=1', 'kind:stalled-os-source', 'stall=300ms', 'seed-candidates-tried'],
+        must_hit=['kind:reseed-nonces', 'kind:clock-nonce', 'kind:clock-exponent', 'kind:reseed-srp', 'kind:reseed-exponent-params', 'small-group', 'kind:srp-distinct', 'secure_random_len=1', 'kind:stalled-os-source', 'stall=300ms', 'kind:many-draws', 'seed-candidates-tried'],
         assumptions=['the statement quantifies over code paths; this check executes the (straight-line) paths under generated environments and can only refute unpredictability',
                      'the exponent\'s seed, if clock-derived, is read within 300 us of entering MakeGAB (it is needed before the exponentiations that dominate the call)'],
     ),
@@ -325,7 +325,7 @@ CHECKS = {
         technique='history invariants over generated scenarios (rapid) with a directed yield-point schedule against a reference server',
         rule=('case = rpc scenario (callers, answer schedule, interleaved server pushes, optional hold at send.msgid, GOMAXPROCS). Non-trivial: the received stream has two '
               'adjacent requests or an acknowledgement interleaved with requests; distinct by hash of the scenario.'),
-        must_hit=['feat:adjacent-requests', 'feat:ack-interleaved-with-requests', 'feat:content-related-in-container', 'directed:hold-after-msgid', 'msgid-generator', 'client-ping', 'server-history:repeated-result', 'server-history:content-related-push',
+        must_hit=['feat:adjacent-requests', 'feat:ack-interleaved-with-requests', 'feat:content-related-in-container', 'directed:hold-after-msgid', 'msgid-generator', 'server-history:clock-skew-notification', 'client-ping', 'server-history:repeated-result', 'server-history:content-related-push',
                   'server-history:service-push', 'server-history:close-and-reconnect', 'feat:stream-continues-after-reconnect', 'concurrent-callers', 'verdict:ok'],
         assumptions=['seq_no: the statement demands parity and monotonicity, not the exact value 2*count',
                      'no clock hook: equal clock readings for two messages are unreachable here (a write system call separates two reads under the send lock)',
@@ -343,7 +343,7 @@ CHECKS = {
         technique='history enumeration (small) + generation (rapid) of salt-rotation scenarios against a reference server; state inspection for stalls',
         rule=('case = plan (fresh|resumed; per rotation: accepted-before, rejected-by, answered-now counts, announcement kind, answer order). Non-trivial: at least one rotation with '
               'a pending request; distinct by hash of the script.'),
-        must_hit=['fresh-keyed+rotation', 'second-rotation', 'rejected-message-is-an-ack', 'salt-notifications-in-a-burst', 'accepted+rejected-mixed', 'pending-across-two-rotations', 'rotation-with-nothing-pending', 'salt-by-new_session_created',
+        must_hit=['fresh-keyed+rotation', 'second-rotation', 'rejected-message-is-an-ack', 'salt-notifications-in-a-burst', 'store-fails-once-then-same-salt-again', 'accepted+rejected-mixed', 'pending-across-two-rotations', 'rotation-with-nothing-pending', 'salt-by-new_session_created',
                   'session:resumed', 'verdict:ok'],
         assumptions=['acknowledgements that the server rejects for their stale salt are not "requests": only tagged RPC requests are counted',
                      'the hook after an adoption fires after the salt was assigned and saved, so a concurrently written message may already carry it: a newer salt is never blamed',
@@ -362,7 +362,7 @@ CHECKS = {
         technique='history generation (rapid) + per-event enumeration against a scripted reference server with a live client per case; state inspection for a stopped loop',
         rule=('case = list of server events with wrapping flags; after each a probe. Non-trivial: at least one event other than pong/ack; distinct by hash of the event list.'),
         must_hit=['event:' + k for k in ('pong', 'ack', 'new-session', 'bad-msg', 'state-info', 'all-info', 'detailed-info', 'new-detailed-info', 'future-salts', 'result-unknown',
-                  'result-again', 'error-unknown', 'update', 'updates-too-long', 'unknown-ctor', 'truncated', 'empty-body', 'empty-container', 'nested-container', 'raw-soup', 'gzip-damaged', 'close', 'bad-salt-unknown', 'bad-salt-answered', 'rotate')] + ['schema-object:mtproto.tl', 'schema-object:api_latest.tl', 'event-frame-in-two-tcp-segments'] +
+                  'result-again', 'error-unknown', 'update', 'updates-too-long', 'unknown-ctor', 'truncated', 'empty-body', 'empty-container', 'nested-container', 'raw-soup', 'gzip-damaged', 'close', 'bad-salt-unknown', 'bad-salt-answered', 'rotate')] + ['schema-object:mtproto.tl', 'schema-object:api_latest.tl', 'event-frame-in-two-tcp-segments', 'event:envelope:badlen', 'event:envelope:evenid', 'event:envelope:flip', 'event:envelope:truncate'] +
                  ['event-gzip-packed', 'event-in-container', 'handler-called', 'warning-surfaced', 'verdict:ok'],
         assumptions=['"close" is an orderly close (FIN); an abortive close (RST) is outside the statement - observed: the client then neither reconnects nor reports anything (noted in DESIGN.md)',
                      'a request made while the client swaps connections may fail with a write error; the probe after a close is repeated until the new connection is in use',
